@@ -66,7 +66,7 @@ def inline(r, depth=0, plugins=()):
             "footnotes": "[^" + r.choice(["1", "n", "Note", "missing"]) + "]",
             "url": r.choice(["https://example.com/a?b=c", "http://x.y"]),
             "abbr": r.choice(["HTML", "W3C"]), "math": "$" + r.choice(["a+b", "x<y", "\\frac"]) + "$",
-            "ruby": "[" + word(r) + "(" + word(r) + ")]", "spoiler": ">!" + w + "!<",
+            "ruby": "[" + word(r) + "(" + word(r) + ")]" + r.choice(["", "", "", "[ref]", "[nope]", "(/u)", "[" + word(r) + "(" + word(r) + ")]", "[]", "("]), "spoiler": ">!" + w + "!<",
             "table": "a|b", "def_list": w, "task_lists": "[x]",
         }.get(p, w)
     return words(r, 1, 3)
@@ -114,7 +114,7 @@ def block(r, depth=0, plugins=(), directives=False):
     if k < 0.48:
         f = r.choice(["```", "~~~", "````", "~~~~"])
         body = "".join(r.choice(["code line\n", "  indented\n", "\n", "*not em*\n", "&amp; <b>\n", "``` x\n", "~~\n", "\\n\n", "\tTab\n"]) for _ in range(r.randint(0, 4)))
-        return r.choice(["", " ", "  ", "   "]) + f + r.choice(["", "python", " py extra", "a&amp;b"]) + "\n" + body + (f + "\n" if r.random() < 0.85 else "")
+        return r.choice(["", " ", "  ", "   "]) + f + r.choice(["", "python", " py extra", "a&amp;b", "", "python", "&#32;", " &#9; ", "&#x20;py", "py&#10;x", "\\ ", "&nbsp;", "&#12288;"]) + "\n" + body + (f + "\n" if r.random() < 0.85 else "")
     if k < 0.52:
         return "".join("    " + r.choice(["code", "  more", "*x*", "<y>"]) + "\n" for _ in range(r.randint(1, 3)))
     if k < 0.56:
